@@ -301,7 +301,7 @@ Qed.
 (* ------------------------------------------------------------------ well-formed members *)
 Definition fld (n : Z) (s : list Z) : Prop := zlen s <= n /\ no_nul s = true /\ bytes_in s.
 
-Record WF (m : amember) : Prop := mkWF {
+Record WFh (m : amember) : Prop := mkWFh {
   wf_name : fld 100 (a_name m);
   wf_link : fld 100 (a_link m);
   wf_uname : fld 32 (a_uname m);
@@ -315,7 +315,7 @@ Record WF (m : amember) : Prop := mkWF {
   wf_devmajor : 0 <= a_devmajor m < 8 ^ 7;
   wf_devminor : 0 <= a_devminor m < 8 ^ 7;
   wf_type : 0 <= a_type m < 256;
-  wf_type_plain : s_mem (a_type m) [76; 75; 83; 120; 103; 88] = false;
+  wf_type_nospecial : s_mem (a_type m) [83; 120; 103; 88] = false;
   wf_magic_len : zlen (a_magic m) = 8;
   wf_magic_bytes : bytes_in (a_magic m);
   wf_magic_visor : s_list_eqb (firstn 7 (a_magic m)) visor7 = a_visor m;
@@ -323,11 +323,25 @@ Record WF (m : amember) : Prop := mkWF {
   wf_vres : 0 <= a_vres m < 4294967296;
   wf_text : 0 <= a_text m < 4294967296;
   wf_fix : 0 <= a_fix m < 4294967296;
+  wf_data_bytes : bytes_in (a_data m);
+}.
+
+(* a member proper *)
+Record WF (m : amember) : Prop := mkWF {
+  wf_h : WFh m;
+  wf_plain : s_mem (a_type m) [76; 75] = false;
   wf_content : a_visor m = true -> s_has_data (spec_type m) = true -> 0 < a_size m -> a_voff m <> 0;
   wf_data_len : zlen (a_data m) =
                 if a_visor m then 0 else if s_has_data (spec_type m) then s_block (a_size m) else 0;
-  wf_data_bytes : bytes_in (a_data m);
   wf_dirname : spec_type m = 53 -> s_rstrip_slash (a_name m) <> [];
+}.
+
+(* a long name / long link record *)
+Record WFR (r : amember) : Prop := mkWFR {
+  wfr_h : WFh r;
+  wfr_type : a_type r = 76 \/ a_type r = 75;
+  wfr_inline : stored_away r = false;
+  wfr_data_len : zlen (a_data r) = s_block (a_size r);
 }.
 
 Lemma field_ok_fld n s : field_ok n s = true -> fld n s.
@@ -343,18 +357,10 @@ Proof. unfold oct_ok. lia. Qed.
 Lemma u32_ok_range v : u32_ok v = true -> 0 <= v < 4294967296.
 Proof. unfold u32_ok. lia. Qed.
 
-Ltac split_and H :=
-  repeat match type of H with
-         | (_ && _) = true => let H' := fresh "Hc" in apply andb_true_iff in H as [H H']
-         end.
-
-Lemma wf_memberb_WF m : wf_memberb m = true -> WF m.
+Lemma wf_hdrb_WFh m : wf_hdrb m = true -> WFh m.
 Proof.
-  unfold wf_memberb. intros H.
-  apply andb_true_iff in H as [H Hdir].
+  unfold wf_hdrb. intros H.
   apply andb_true_iff in H as [H Hdb].
-  apply andb_true_iff in H as [H Hdl].
-  apply andb_true_iff in H as [H Hcont].
   apply andb_true_iff in H as [H Hfix].
   apply andb_true_iff in H as [H Htext].
   apply andb_true_iff in H as [H Hvres].
@@ -398,14 +404,40 @@ Proof.
   - now apply u32_ok_range.
   - now apply u32_ok_range.
   - now apply u32_ok_range.
+  - now apply bytes_okb_in.
+Qed.
+
+Lemma wf_memberb_WF m : wf_memberb m = true -> WF m.
+Proof.
+  unfold wf_memberb. intros H.
+  apply andb_true_iff in H as [H Hdir].
+  apply andb_true_iff in H as [H Hdl].
+  apply andb_true_iff in H as [H Hcont].
+  apply andb_true_iff in H as [Hh Hplain].
+  constructor.
+  - now apply wf_hdrb_WFh.
+  - now apply negb_true_iff in Hplain.
   - intros Hv Hd Hs. apply orb_true_iff in Hcont as [Hc|Hc].
     + rewrite Hv, Hd in Hc. cbn in Hc. destruct (Z.ltb_spec 0 (a_size m)); [discriminate|lia].
     + apply negb_true_iff in Hc. lia.
   - destruct (a_visor m); [lia|]. destruct (s_has_data (spec_type m)); lia.
-  - now apply bytes_okb_in.
   - intros Hd. apply orb_true_iff in Hdir as [Hc|Hc].
     + apply negb_true_iff in Hc. lia.
     + destruct (s_rstrip_slash (a_name m)); [discriminate|congruence].
+Qed.
+
+Lemma wf_recordb_WFR r : wf_recordb r = true -> WFR r.
+Proof.
+  unfold wf_recordb. intros H.
+  apply andb_true_iff in H as [H Hlen].
+  apply andb_true_iff in H as [H Hin].
+  apply andb_true_iff in H as [Hh Hty].
+  constructor.
+  - now apply wf_hdrb_WFh.
+  - unfold s_mem in Hty. cbn [existsb] in Hty. rewrite orb_false_r in Hty.
+    apply orb_true_iff in Hty as [E|E]; [left|right]; lia.
+  - now apply negb_true_iff in Hin.
+  - lia.
 Qed.
 
 (* ------------------------------------------------------------------ the rendered header, field by field *)
@@ -417,7 +449,7 @@ Definition lens_for (m : amember) : list Z := if a_visor m then lens_v else lens
 Lemma zlen_padz_fld n k s : fld k s -> k <= Z.of_nat n -> zlen (padz n s) = Z.of_nat n.
 Proof. intros (Hl & _ & _) Hk. apply zlen_padz. lia. Qed.
 
-Lemma hfields_lens m : WF m -> lens_of (hfields m) (lens_for m).
+Lemma hfields_lens m : WFh m -> lens_of (hfields m) (lens_for m).
 Proof.
   intros H. destruct H.
   unfold hfields, pre_fields, post_fields, lens_for, lens_v, lens_s, lens_pre.
@@ -432,18 +464,18 @@ Proof.
       | eapply (zlen_padz_fld 155); [eassumption|lia] ]).
 Qed.
 
-Lemma header_len m : WF m -> zlen (header m) = 512.
+Lemma header_len m : WFh m -> zlen (header m) = 512.
 Proof.
   intros H. unfold header. rewrite (lens_concat _ _ (hfields_lens m H)).
   unfold lens_for. destruct (a_visor m); reflexivity.
 Qed.
 
-Lemma hdr_slice m i j : WF m ->
+Lemma hdr_slice m i j : WFh m ->
   slice (header m) (zsumz (firstn i (lens_for m))) (zsumz (firstn j (skipn i (lens_for m))))
   = concat (firstn j (skipn i (hfields m))).
 Proof. intros H. apply slice_fields. now apply hfields_lens. Qed.
 
-Lemma hdr_slice' m i j off n fs : WF m ->
+Lemma hdr_slice' m i j off n fs : WFh m ->
   zsumz (firstn i (lens_for m)) = off ->
   zsumz (firstn j (skipn i (lens_for m))) = n ->
   concat (firstn j (skipn i (hfields m))) = fs ->
@@ -457,32 +489,32 @@ Ltac hdr_field m H i :=
   | unfold lens_for; destruct (a_visor m); reflexivity
   | exact (app_nil_r _) ].
 
-Lemma hdr_name m : WF m -> slice (header m) 0 100 = padz 100 (a_name m).
+Lemma hdr_name m : WFh m -> slice (header m) 0 100 = padz 100 (a_name m).
 Proof. intros H. hdr_field m H 0%nat. Qed.
-Lemma hdr_mode m : WF m -> slice (header m) 100 8 = octf 8 (a_mode m).
+Lemma hdr_mode m : WFh m -> slice (header m) 100 8 = octf 8 (a_mode m).
 Proof. intros H. hdr_field m H 1%nat. Qed.
-Lemma hdr_uid m : WF m -> slice (header m) 108 8 = octf 8 (a_uid m).
+Lemma hdr_uid m : WFh m -> slice (header m) 108 8 = octf 8 (a_uid m).
 Proof. intros H. hdr_field m H 2%nat. Qed.
-Lemma hdr_gid m : WF m -> slice (header m) 116 8 = octf 8 (a_gid m).
+Lemma hdr_gid m : WFh m -> slice (header m) 116 8 = octf 8 (a_gid m).
 Proof. intros H. hdr_field m H 3%nat. Qed.
-Lemma hdr_size m : WF m -> slice (header m) 124 12 = octf 12 (a_size m).
+Lemma hdr_size m : WFh m -> slice (header m) 124 12 = octf 12 (a_size m).
 Proof. intros H. hdr_field m H 4%nat. Qed.
-Lemma hdr_mtime m : WF m -> slice (header m) 136 12 = octf 12 (a_mtime m).
+Lemma hdr_mtime m : WFh m -> slice (header m) 136 12 = octf 12 (a_mtime m).
 Proof. intros H. hdr_field m H 5%nat. Qed.
-Lemma hdr_chk m : WF m -> slice (header m) 148 8 = chkf (hdr_chksum m).
+Lemma hdr_chk m : WFh m -> slice (header m) 148 8 = chkf (hdr_chksum m).
 Proof. intros H. hdr_field m H 6%nat. Qed.
-Lemma hdr_type m : WF m -> slice (header m) 156 1 = [a_type m].
+Lemma hdr_type m : WFh m -> slice (header m) 156 1 = [a_type m].
 Proof. intros H. hdr_field m H 7%nat. Qed.
-Lemma hdr_link m : WF m -> slice (header m) 157 100 = padz 100 (a_link m).
+Lemma hdr_link m : WFh m -> slice (header m) 157 100 = padz 100 (a_link m).
 Proof. intros H. hdr_field m H 8%nat. Qed.
-Lemma hdr_magic m : WF m -> slice (header m) 257 8 = a_magic m.
+Lemma hdr_magic m : WFh m -> slice (header m) 257 8 = a_magic m.
 Proof. intros H. hdr_field m H 9%nat. Qed.
-Lemma hdr_devmajor m : WF m -> slice (header m) 329 8 = octf 8 (a_devmajor m).
+Lemma hdr_devmajor m : WFh m -> slice (header m) 329 8 = octf 8 (a_devmajor m).
 Proof. intros H. hdr_field m H 12%nat. Qed.
-Lemma hdr_devminor m : WF m -> slice (header m) 337 8 = octf 8 (a_devminor m).
+Lemma hdr_devminor m : WFh m -> slice (header m) 337 8 = octf 8 (a_devminor m).
 Proof. intros H. hdr_field m H 13%nat. Qed.
 
-Lemma hdr_pre m : WF m -> slice (header m) 0 148 = concat (pre_fields m).
+Lemma hdr_pre m : WFh m -> slice (header m) 0 148 = concat (pre_fields m).
 Proof.
   intros H. apply (hdr_slice' m 0%nat 6%nat _ _ _ H).
   - unfold lens_for; destruct (a_visor m); reflexivity.
@@ -490,7 +522,7 @@ Proof.
   - reflexivity.
 Qed.
 
-Lemma hdr_post m : WF m -> slice (header m) 156 356 = concat (post_fields m).
+Lemma hdr_post m : WFh m -> slice (header m) 156 356 = concat (post_fields m).
 Proof.
   intros H. destruct (a_visor m) eqn:Ev.
   - apply (hdr_slice' m 7%nat 12%nat _ _ _ H).
@@ -503,7 +535,7 @@ Proof.
     + unfold hfields, post_fields. rewrite Ev. reflexivity.
 Qed.
 
-Lemma hdr_prefix_v m : WF m -> a_visor m = true ->
+Lemma hdr_prefix_v m : WFh m -> a_visor m = true ->
   slice (header m) 345 155 = padz 151 (a_prefix m) ++ le4 (a_voff m).
 Proof.
   intros H Ev. apply (hdr_slice' m 14%nat 2%nat _ _ _ H).
@@ -513,7 +545,7 @@ Proof.
     exact (f_equal (fun x => padz 151 (a_prefix m) ++ x) (app_nil_r _)).
 Qed.
 
-Lemma hdr_prefix_s m : WF m -> a_visor m = false ->
+Lemma hdr_prefix_s m : WFh m -> a_visor m = false ->
   slice (header m) 345 155 = padz 155 (a_prefix m).
 Proof.
   intros H Ev. apply (hdr_slice' m 14%nat 1%nat _ _ _ H).
@@ -522,7 +554,7 @@ Proof.
   - unfold hfields, post_fields. rewrite Ev. exact (app_nil_r _).
 Qed.
 
-Lemma hdr_prefix m : WF m -> nts (slice (header m) 345 155) = a_prefix m.
+Lemma hdr_prefix m : WFh m -> nts (slice (header m) 345 155) = a_prefix m.
 Proof.
   intros H. destruct (wf_prefix m H) as (Hl & Hn & _).
   destruct (a_visor m) eqn:Ev.
@@ -537,11 +569,11 @@ Ltac hdr_vfield m H Ev i :=
   | unfold lens_for; rewrite Ev; reflexivity
   | unfold hfields, post_fields; rewrite Ev; exact (app_nil_r _) ].
 
-Lemma hdr_voff m : WF m -> a_visor m = true -> slice (header m) 496 4 = le4 (a_voff m).
+Lemma hdr_voff m : WFh m -> a_visor m = true -> slice (header m) 496 4 = le4 (a_voff m).
 Proof. intros H Ev. hdr_vfield m H Ev 15%nat. Qed.
-Lemma hdr_text m : WF m -> a_visor m = true -> slice (header m) 504 4 = le4 (a_text m).
+Lemma hdr_text m : WFh m -> a_visor m = true -> slice (header m) 504 4 = le4 (a_text m).
 Proof. intros H Ev. hdr_vfield m H Ev 17%nat. Qed.
-Lemma hdr_fix m : WF m -> a_visor m = true -> slice (header m) 508 4 = le4 (a_fix m).
+Lemma hdr_fix m : WFh m -> a_visor m = true -> slice (header m) 508 4 = le4 (a_fix m).
 Proof. intros H Ev. hdr_vfield m H Ev 18%nat. Qed.
 
 (* ------------------------------------------------------------------ checksum, NUL count *)
@@ -560,13 +592,13 @@ Ltac fields_bytes :=
                   | apply (bytes_in_repeat0 4) | apply bytes_in_single; assumption | assumption ] | ]);
   apply Forall_nil.
 
-Lemma pre_fields_bytes m : WF m -> bytes_in (concat (pre_fields m)).
+Lemma pre_fields_bytes m : WFh m -> bytes_in (concat (pre_fields m)).
 Proof.
   intros H. apply bytes_in_concat. unfold pre_fields.
   pose proof (fld_bytes _ _ (wf_name m H)). fields_bytes.
 Qed.
 
-Lemma post_fields_bytes m : WF m -> bytes_in (concat (post_fields m)).
+Lemma post_fields_bytes m : WFh m -> bytes_in (concat (post_fields m)).
 Proof.
   intros H. apply bytes_in_concat. unfold post_fields.
   pose proof (fld_bytes _ _ (wf_link m H)). pose proof (fld_bytes _ _ (wf_uname m H)).
@@ -575,21 +607,21 @@ Proof.
   destruct (a_visor m); cbn [app]; fields_bytes.
 Qed.
 
-Lemma pre_fields_len m : WF m -> zlen (concat (pre_fields m)) = 148.
+Lemma pre_fields_len m : WFh m -> zlen (concat (pre_fields m)) = 148.
 Proof.
   intros H. pose proof (lens_firstn _ _ 6%nat (hfields_lens m H)) as L.
   change (firstn 6 (hfields m)) with (pre_fields m) in L.
   rewrite (lens_concat _ _ L). unfold lens_for. destruct (a_visor m); reflexivity.
 Qed.
 
-Lemma post_fields_len m : WF m -> zlen (concat (post_fields m)) = 356.
+Lemma post_fields_len m : WFh m -> zlen (concat (post_fields m)) = 356.
 Proof.
   intros H. pose proof (lens_skipn _ _ 7%nat (hfields_lens m H)) as L.
   change (skipn 7 (hfields m)) with (post_fields m) in L.
   rewrite (lens_concat _ _ L). unfold lens_for. destruct (a_visor m); reflexivity.
 Qed.
 
-Lemma hdr_chksum_range m : WF m -> 0 <= hdr_chksum m < 8 ^ 6.
+Lemma hdr_chksum_range m : WFh m -> 0 <= hdr_chksum m < 8 ^ 6.
 Proof.
   intros H. unfold hdr_chksum.
   pose proof (bytes_in_sum _ (pre_fields_bytes m H)) as H1.
@@ -598,7 +630,7 @@ Proof.
   change zsum' with zsumz. change (8 ^ 6) with 262144. lia.
 Qed.
 
-Lemma chksum_unsigned_header m : WF m -> chksum_unsigned (header m) = hdr_chksum m.
+Lemma chksum_unsigned_header m : WFh m -> chksum_unsigned (header m) = hdr_chksum m.
 Proof. intros H. unfold chksum_unsigned. rewrite (hdr_pre m H), (hdr_post m H). reflexivity. Qed.
 
 Lemma header_split m :
@@ -608,7 +640,7 @@ Proof.
   rewrite <- !app_assoc. reflexivity.
 Qed.
 
-Lemma count0_header m : WF m -> (count0 (header m) =? BLOCK) = false.
+Lemma count0_header m : WFh m -> (count0 (header m) =? BLOCK) = false.
 Proof.
   intros H. pose proof (header_len m H) as Hl.
   rewrite header_split in Hl |- *.
@@ -621,30 +653,30 @@ Qed.
 Lemma spec_type_cases m : spec_type m = a_type m \/ spec_type m = 53.
 Proof. unfold spec_type. destruct (_ && _); auto. Qed.
 
-Lemma spec_type_not_gnu m : WF m -> mem (spec_type m) GNU_TYPES = false.
+Lemma spec_type_not_special m t : WFh m -> In t [83; 120; 103; 88] -> (spec_type m =? t) = false.
 Proof.
-  intros H. pose proof (wf_type_plain m H) as Hp.
-  destruct (spec_type_cases m) as [->| ->]; [|reflexivity].
-  unfold s_mem in Hp. cbn [existsb] in Hp.
-  repeat (apply orb_false_iff in Hp as [? Hp]).
-  unfold mem, GNU_TYPES, GNUTYPE_LONGNAME, GNUTYPE_LONGLINK, GNUTYPE_SPARSE. cbn [existsb].
-  repeat (apply orb_false_iff; split); assumption || reflexivity.
-Qed.
-
-Lemma spec_type_not_special m t : WF m -> In t [76; 75; 83; 120; 103; 88] -> (spec_type m =? t) = false.
-Proof.
-  intros H Ht. pose proof (wf_type_plain m H) as Hp.
+  intros H Ht. pose proof (wf_type_nospecial m H) as Hp.
   unfold s_mem in Hp. cbn [existsb] in Hp.
   repeat (apply orb_false_iff in Hp as [? Hp]).
   cbn in Ht.
   destruct (spec_type_cases m) as [->| ->];
-    destruct Ht as [<-|[<-|[<-|[<-|[<-|[<-|[]]]]]]]; assumption || reflexivity.
+    destruct Ht as [<-|[<-|[<-|[<-|[]]]]]; assumption || reflexivity.
+Qed.
+
+Lemma spec_type_not_longrec m t : WF m -> In t [76; 75] -> (spec_type m =? t) = false.
+Proof.
+  intros H Ht. pose proof (wf_plain m H) as Hp.
+  unfold s_mem in Hp. cbn [existsb] in Hp.
+  repeat (apply orb_false_iff in Hp as [? Hp]).
+  cbn in Ht.
+  destruct (spec_type_cases m) as [->| ->];
+    destruct Ht as [<-|[<-|[]]]; assumption || reflexivity.
 Qed.
 
 Definition hdr_of (m : amember) : hdr :=
   mkhdr (spec_name m) (a_link m) (a_size m) (spec_type m) false 0 0 0.
 
-Lemma frombuf_std_header m : WF m -> frombuf_std (header m) = HOk (hdr_of m).
+Lemma frombuf_std_header m : WFh m -> frombuf_std (header m) = HOk (hdr_of m).
 Proof.
   intros H. unfold frombuf_std.
   change blen with zlen. rewrite (header_len m H).
@@ -666,7 +698,6 @@ Proof.
   change (if (a_type m =? 0) && s_ends_slash (a_name m) then DIRTYPE else a_type m) with (spec_type m).
   change GNUTYPE_SPARSE with 83. change DIRTYPE with 53.
   rewrite (spec_type_not_special m 83 H ltac:(cbn; auto 10)).
-  rewrite (spec_type_not_gnu m H).
   unfold hdr_of, spec_name. f_equal.
   destruct (a_prefix m); reflexivity.
 Qed.
@@ -687,7 +718,7 @@ Qed.
 
 (* VisorTarInfo.frombuf reads back every field the writer stored.  The magic, the slice bounds
    and the struct formats are the generated ones: a change in vmtar.py breaks this proof. *)
-Lemma frombuf_header m : WF m -> frombuf true (header m) = HOk (vhdr_of m).
+Lemma frombuf_header m : WFh m -> frombuf true (header m) = HOk (vhdr_of m).
 Proof.
   intros H. unfold frombuf, frombuf_visor. rewrite (frombuf_std_header m H).
   change Gen.VmTar.vmtar_magic_lo with 257.
@@ -740,7 +771,8 @@ Definition tinfo_of (pos : Z) (m : amember) : tinfo :=
 Lemma rstrip_spec_name m : WF m -> spec_type m = 53 -> rstrip_slash (spec_name m) = spec_name m.
 Proof.
   intros H Hd. apply ends_slash_false_rstrip.
-  unfold spec_name. rewrite Hd. change (53 =? 53) with true. cbn iota.
+  unfold spec_name. rewrite Hd. change (53 =? 53) with true.
+  change (s_mem 53 [76; 75; 83]) with false. cbn iota.
   pose proof (wf_dirname m H Hd) as Hne.
   change s_rstrip_slash with rstrip_slash in *.
   destruct (a_prefix m) as [|p ps].
@@ -754,7 +786,7 @@ Proof.
   destruct (a_visor m); reflexivity.
 Qed.
 
-Lemma rd_header pre m post : WF m -> rd (pre ++ member_bytes m ++ post) (zlen pre) BLOCK = header m.
+Lemma rd_header pre m post : WFh m -> rd (pre ++ member_bytes m ++ post) (zlen pre) BLOCK = header m.
 Proof.
   intros H. unfold rd, member_bytes, BLOCK. rewrite <- (header_len m H), <- app_assoc.
   apply slice_app_exact.
@@ -765,7 +797,7 @@ Lemma inline_len m : WF m -> stored_away m = false ->
 Proof.
   intros H Hs. rewrite (wf_data_len m H).
   change (has_data (spec_type m)) with (s_has_data (spec_type m)).
-  pose proof (wf_size m H) as Hsz.
+  pose proof (wf_size m (wf_h m H)) as Hsz.
   destruct (s_has_data (spec_type m)) eqn:Hd.
   - destruct (a_visor m) eqn:Ev.
     + (* a visor member without a recorded offset has no content *)
@@ -783,8 +815,8 @@ Lemma fromtarfile_member pre m post fuel : WF m ->
   = POk (tinfo_of (zlen pre) m) (zlen pre + 512) (zlen pre + 512 + zlen (a_data m)).
 Proof.
   intros H. cbn [fromtarfile].
-  rewrite (rd_header pre m post H). change (blen (header m)) with (zlen (header m)).
-  rewrite (header_len m H), (frombuf_header m H).
+  rewrite (rd_header pre m post (wf_h m H)). change (blen (header m)) with (zlen (header m)).
+  rewrite (header_len m (wf_h m H)), (frombuf_header m (wf_h m H)).
   rewrite skip_cond_vhdr.
   replace (zlen pre + 512 - BLOCK) with (zlen pre) by (unfold BLOCK; lia).
   assert (Hty : h_type (vhdr_of m) = spec_type m) by (unfold vhdr_of; destruct (a_visor m); reflexivity).
@@ -806,14 +838,14 @@ Proof.
     { rewrite (wf_data_len m H). unfold stored_away in Hs. destruct (a_visor m); [reflexivity|discriminate]. }
     f_equal. lia.
   - change GNUTYPE_LONGNAME with 76. change GNUTYPE_LONGLINK with 75.
-    rewrite (spec_type_not_special m 76 H ltac:(cbn; auto 10)), (spec_type_not_special m 75 H ltac:(cbn; auto 10)).
+    rewrite (spec_type_not_longrec m 76 H ltac:(cbn; auto 10)), (spec_type_not_longrec m 75 H ltac:(cbn; auto 10)).
     cbn [orb].
     assert (Hpax : mem (spec_type m) [XHDTYPE; XGLTYPE; SOLARIS_XHDTYPE] = false).
     { unfold mem, XHDTYPE, XGLTYPE, SOLARIS_XHDTYPE. cbn [existsb].
-      rewrite (spec_type_not_special m 120 H ltac:(cbn; auto 10)), (spec_type_not_special m 103 H ltac:(cbn; auto 10)),
-              (spec_type_not_special m 88 H ltac:(cbn; auto 10)). reflexivity. }
+      rewrite (spec_type_not_special m 120 (wf_h m H) ltac:(cbn; auto 10)), (spec_type_not_special m 103 (wf_h m H) ltac:(cbn; auto 10)),
+              (spec_type_not_special m 88 (wf_h m H) ltac:(cbn; auto 10)). reflexivity. }
     rewrite Hpax.
-    pose proof (wf_size m H) as Hsize.
+    pose proof (wf_size m (wf_h m H)) as Hsize.
     destruct (Z.ltb_spec (a_size m) 0) as [Hneg|_]; [lia|]. cbn [andb].
     rewrite (inline_len m H Hs).
     unfold tinfo_of. rewrite Hs. f_equal. f_equal.
@@ -851,8 +883,11 @@ Fixpoint tinfos (pos : Z) (a : list amember) : list tinfo :=
   | m :: r => tinfo_of pos m :: tinfos (pos + 512 + zlen (a_data m)) r
   end.
 
-Lemma zlen_member_bytes m : WF m -> zlen (member_bytes m) = 512 + zlen (a_data m).
+Lemma zlen_member_bytes_h m : WFh m -> zlen (member_bytes m) = 512 + zlen (a_data m).
 Proof. intros H. unfold member_bytes. rewrite zlen_app, (header_len m H). reflexivity. Qed.
+
+Lemma zlen_member_bytes m : WF m -> zlen (member_bytes m) = 512 + zlen (a_data m).
+Proof. intros H. apply zlen_member_bytes_h, wf_h, H. Qed.
 
 Lemma load_render a : forall pre rest fuel tell e,
   Forall WF a ->
@@ -997,7 +1032,7 @@ Proof.
   exists (tinfos 0 a), (tinfo_of (zlen (render a1)) m).
   split; [now apply members_render|]. split; [now apply tinfos_nth|].
   split; [reflexivity|]. split; [|reflexivity].
-  pose proof (wf_size m Hm).
+  pose proof (wf_size m (wf_h m Hm)).
   assert (E : tinfo_of (zlen (render a1)) m =
               mkt (spec_name m) (a_link m) (a_size m) (spec_type m) (zlen (render a1)) (a_voff m)
                   (a_visor m) (if a_visor m then a_text m else 0) (if a_visor m then a_fix m else 0)).
@@ -1023,7 +1058,7 @@ Proof.
   exists (tinfos 0 a), (tinfo_of (zlen (render a1)) m).
   split; [now apply members_render|]. split; [now apply tinfos_nth|].
   split; [reflexivity|].
-  pose proof (wf_size m Hm) as Hsz.
+  pose proof (wf_size m (wf_h m Hm)) as Hsz.
   (* the content lies inside the blocks that follow the header *)
   assert (Hfit : a_size m <= zlen (a_data m)).
   { rewrite (wf_data_len m Hm). unfold stored_away in Haway.
@@ -1036,7 +1071,7 @@ Proof.
   { unfold f, a. rewrite render_app. cbn [render flat_map]. fold (render a2). unfold member_bytes.
     rewrite <- !app_assoc. reflexivity. }
   assert (Hpos : zlen (render a1 ++ header m) = zlen (render a1) + 512).
-  { rewrite zlen_app, (header_len m Hm). reflexivity. }
+  { rewrite zlen_app, (header_len m (wf_h m Hm)). reflexivity. }
   split.
   - assert (E : tinfo_of (zlen (render a1)) m =
               mkt (spec_name m) (a_link m) (a_size m) (spec_type m) (zlen (render a1)) (zlen (render a1) + 512)
@@ -1206,3 +1241,233 @@ Lemma ex_run :
          (([115], [], (48, 3, 1024, 1536), (false, 0, 0)), Done (Some (1536, 3)));
          (([116; 47; 97], [], (48, 7, 2048, 2048), (true, 0, 0)), Done (Some (2048, 7))) ].
 Proof. vm_compute. reflexivity. Qed.
+
+(* ------------------------------------------------------------------ long name / long link records *)
+Fixpoint tinfo_item (pos : Z) (it : item) : tinfo :=
+  match it with
+  | IMember m => tinfo_of pos m
+  | ILong r next =>
+    let t := tinfo_item (pos + 512 + zlen (a_data r)) next in
+    let str := nts (a_data r) in
+    let name := if a_type r =? GNUTYPE_LONGNAME then str else t_name t in
+    let link := if a_type r =? GNUTYPE_LONGLINK then str else t_link t in
+    let name' := if t_type t =? DIRTYPE then removesuffix_slash name else name in
+    mkt name' link (t_size t) (t_type t) pos (t_data t) (t_visor t) (t_text t) (t_fix t)
+  end.
+
+Fixpoint item_tell (pos : Z) (it : item) : Z :=
+  match it with
+  | IMember _ => pos + 512
+  | ILong r next => item_tell (pos + 512 + zlen (a_data r)) next
+  end.
+
+Fixpoint hdr_count (it : item) : nat :=
+  match it with IMember _ => 1%nat | ILong _ next => S (hdr_count next) end.
+
+Inductive WFI : item -> Prop :=
+| WFI_member m : WF m -> WFI (IMember m)
+| WFI_long r next : WFR r -> WFI next -> WFI (ILong r next).
+
+Lemma wf_itemb_WFI it : wf_itemb it = true -> WFI it.
+Proof.
+  induction it as [m|r next IH]; cbn [wf_itemb]; intros H.
+  - constructor. now apply wf_memberb_WF.
+  - apply andb_true_iff in H as [Hr Hn]. constructor; [now apply wf_recordb_WFR|now apply IH].
+Qed.
+
+Lemma item_len_render it : WFI it -> zlen (render_item it) = item_len it.
+Proof.
+  induction 1 as [m Hm|r next Hr Hn IH]; cbn [render_item item_len].
+  - apply zlen_member_bytes. exact Hm.
+  - rewrite zlen_app, (zlen_member_bytes_h r (wfr_h r Hr)), IH. lia.
+Qed.
+
+Lemma record_spec_type r : WFR r -> spec_type r = a_type r.
+Proof.
+  intros H. unfold spec_type. destruct (wfr_type r H) as [-> | ->]; reflexivity.
+Qed.
+
+Lemma fromtarfile_item it : forall pre post fuel, WFI it -> (hdr_count it <= fuel)%nat ->
+  fromtarfile true (pre ++ render_item it ++ post) fuel (zlen pre)
+  = POk (tinfo_item (zlen pre) it) (item_tell (zlen pre) it) (zlen pre + item_len it).
+Proof.
+  induction it as [m|r next IH]; intros pre post fuel Hwf Hfuel.
+  - inversion Hwf as [? Hm|]; subst. cbn [hdr_count] in Hfuel.
+    destruct fuel as [|fuel]; [lia|].
+    cbn [render_item tinfo_item item_tell item_len].
+    rewrite (fromtarfile_member pre m post fuel Hm). now rewrite Z.add_assoc.
+  - inversion Hwf as [|? ? Hr Hn]; subst. cbn [hdr_count] in Hfuel.
+    destruct fuel as [|fuel]; [lia|].
+    pose proof (wfr_h r Hr) as Hh.
+    cbn [render_item]. rewrite <- (app_assoc (member_bytes r) (render_item next) post).
+    cbn [fromtarfile].
+    rewrite (rd_header pre r (render_item next ++ post) Hh). change (blen (header r)) with (zlen (header r)).
+    rewrite (header_len r Hh), (frombuf_header r Hh), skip_cond_vhdr, (wfr_inline r Hr).
+    replace (zlen pre + 512 - BLOCK) with (zlen pre) by (unfold BLOCK; lia).
+    assert (Hty : h_type (vhdr_of r) = a_type r).
+    { rewrite <- (record_spec_type r Hr). unfold vhdr_of; destruct (a_visor r); reflexivity. }
+    assert (Hsz : h_size (vhdr_of r) = a_size r) by (unfold vhdr_of; destruct (a_visor r); reflexivity).
+    rewrite Hty, Hsz.
+    assert (Hlk : (a_type r =? GNUTYPE_LONGNAME) || (a_type r =? GNUTYPE_LONGLINK) = true).
+    { destruct (wfr_type r Hr) as [-> | ->]; reflexivity. }
+    rewrite Hlk.
+    pose proof (wf_size r Hh) as Hsize.
+    destruct (Z.ltb_spec (a_size r) 0) as [Hneg|_]; [lia|].
+    (* the record's blocks *)
+    assert (Hblk : block (a_size r) = zlen (a_data r)).
+    { rewrite block_eq by lia. symmetry. apply (wfr_data_len r Hr). }
+    assert (Hbuf : rd (pre ++ member_bytes r ++ render_item next ++ post) (zlen pre + 512) (block (a_size r)) = a_data r).
+    { unfold rd, member_bytes. rewrite Hblk, <- (app_assoc (header r)), (app_assoc pre (header r)).
+      replace (zlen pre + 512) with (zlen (pre ++ header r)) by (rewrite zlen_app, (header_len r Hh); reflexivity).
+      apply slice_app_exact. }
+    rewrite Hbuf. change (blen (a_data r)) with (zlen (a_data r)).
+    (* the header that follows the record *)
+    pose proof (zlen_member_bytes_h r Hh) as Hmb.
+    rewrite (app_assoc pre (member_bytes r) (render_item next ++ post)).
+    replace (zlen pre + 512 + zlen (a_data r)) with (zlen (pre ++ member_bytes r)) by (rewrite zlen_app; lia).
+    rewrite (IH (pre ++ member_bytes r) post fuel Hn ltac:(lia)).
+    cbn [tinfo_item item_tell item_len].
+    rewrite zlen_app, Hmb.
+    replace (zlen pre + (512 + zlen (a_data r))) with (zlen pre + 512 + zlen (a_data r)) by lia.
+    f_equal. lia.
+Qed.
+
+Fixpoint tinfos_items (pos : Z) (l : list item) : list tinfo :=
+  match l with
+  | [] => []
+  | it :: r => tinfo_item pos it :: tinfos_items (pos + item_len it) r
+  end.
+
+Fixpoint hdr_total (l : list item) : nat :=
+  match l with [] => 0%nat | it :: r => (hdr_count it + hdr_total r)%nat end.
+
+Lemma hdr_count_pos it : (1 <= hdr_count it)%nat.
+Proof. destruct it; cbn; lia. Qed.
+
+Lemma item_len_ge it : WFI it -> 512 * Z.of_nat (hdr_count it) <= item_len it.
+Proof.
+  induction 1 as [m Hm|r next Hr Hn IH]; cbn [item_len hdr_count].
+  - pose proof (zlen_nonneg (a_data m)). lia.
+  - pose proof (zlen_nonneg (a_data r)). lia.
+Qed.
+
+Lemma load_render_items l : forall pre rest fuel tell e,
+  Forall WFI l ->
+  frombuf true (rd rest 0 BLOCK) = HErr e ->
+  (zlen pre = 0 -> l = [] -> e = EEof) ->
+  (hdr_total l < fuel)%nat ->
+  tell = zlen pre \/ zlen pre <> 0 ->
+  load true (pre ++ render_items l ++ rest) fuel (zlen pre) tell = Done (tinfos_items (zlen pre) l).
+Proof.
+  induction l as [|it r IH]; intros pre rest fuel tell e Hwf Hstop He Hfuel Htell.
+  - destruct fuel as [|fuel]; [cbn in Hfuel; lia|].
+    cbn [render_items flat_map app load].
+    rewrite next_at.
+    2:{ destruct Htell as [->|Hne]; [left; reflexivity|right]. split; [exact Hne|].
+        change blen with zlen. rewrite zlen_app. pose proof (zlen_nonneg rest). lia. }
+    cbn [fromtarfile].
+    assert (Hrd : rd (pre ++ rest) (zlen pre) BLOCK = rd rest 0 BLOCK).
+    { unfold rd. rewrite slice_app_skip by lia. f_equal. lia. }
+    rewrite Hrd, Hstop. cbn [next_result].
+    destruct e; try reflexivity;
+      (destruct (Z.eqb_spec (zlen pre) 0) as [Hz|_]; [specialize (He Hz eq_refl); discriminate|reflexivity]).
+  - destruct fuel as [|fuel]; [cbn in Hfuel; lia|].
+    inversion Hwf as [|? ? Hit Hr]; subst.
+    cbn [render_items flat_map]. fold (render_items r).
+    rewrite <- (app_assoc (render_item it) (render_items r) rest).
+    cbn [load].
+    pose proof (item_len_render it Hit) as Hlen.
+    pose proof (item_len_ge it Hit) as Hge. pose proof (hdr_count_pos it) as Hc.
+    cbn [hdr_total] in Hfuel.
+    rewrite next_at.
+    2:{ destruct Htell as [->|Hne]; [left; reflexivity|right]. split; [exact Hne|].
+        change blen with zlen. rewrite zlen_app.
+        pose proof (zlen_nonneg (render_item it ++ render_items r ++ rest)). lia. }
+    rewrite (fromtarfile_item it pre (render_items r ++ rest) (S fuel) Hit ltac:(lia)). cbn [next_result].
+    pose proof (zlen_nonneg pre) as Hp.
+    rewrite (app_assoc pre (render_item it) (render_items r ++ rest)).
+    replace (zlen pre + item_len it) with (zlen (pre ++ render_item it)) by (rewrite zlen_app; lia).
+    rewrite (IH (pre ++ render_item it) rest fuel (item_tell (zlen pre) it) e Hr Hstop).
+    + cbn [tinfos_items]. rewrite zlen_app, Hlen. reflexivity.
+    + intros Hz. rewrite zlen_app in Hz. lia.
+    + lia.
+    + right. rewrite zlen_app. lia.
+Qed.
+
+Lemma zlen_render_items_ge l : Forall WFI l -> 512 * Z.of_nat (hdr_total l) <= zlen (render_items l).
+Proof.
+  induction 1 as [|it r Hit Hr IH]; [cbn; lia|].
+  cbn [render_items flat_map hdr_total]. fold (render_items r).
+  rewrite zlen_app, (item_len_render it Hit). pose proof (item_len_ge it Hit). lia.
+Qed.
+
+Lemma wf_itemsb_Forall l : wf_itemsb l = true -> Forall WFI l.
+Proof.
+  unfold wf_itemsb. rewrite forallb_forall, Forall_forall.
+  intros H it Hit. apply wf_itemb_WFI. now apply H.
+Qed.
+
+Lemma entry_of_tinfo_item it : forall pos, entry_of_t (tinfo_item pos it) = entry_item pos it.
+Proof.
+  induction it as [m|r next IH]; intros pos; [reflexivity|].
+  cbn [tinfo_item entry_item]. rewrite <- IH. reflexivity.
+Qed.
+
+Lemma entries_of_tinfos_items l : forall pos, map entry_of_t (tinfos_items pos l) = listing_items pos l.
+Proof.
+  induction l as [|it r IH]; intros pos; cbn [tinfos_items listing_items map]; [reflexivity|].
+  now rewrite entry_of_tinfo_item, IH.
+Qed.
+
+Theorem members_in_step_items l rest :
+  wf_itemsb l = true -> stops l rest ->
+  exists ms, members true (render_items l ++ rest) = Done ms /\ map entry_of_t ms = listing_items 0 l.
+Proof.
+  intros Hwf (e & He & Hnil). apply wf_itemsb_Forall in Hwf.
+  exists (tinfos_items 0 l). split; [|apply entries_of_tinfos_items].
+  unfold members.
+  apply (load_render_items l [] rest _ 0 e Hwf He).
+  - intros _. exact Hnil.
+  - unfold fuel_for. change blen with zlen. rewrite zlen_app.
+    pose proof (zlen_render_items_ge l Hwf) as Hge. pose proof (zlen_nonneg rest) as Hr.
+    assert (Z.of_nat (hdr_total l) <= (zlen (render_items l) + zlen rest) / BLOCK).
+    { unfold BLOCK. apply Z.div_le_lower_bound; lia. }
+    lia.
+  - left. reflexivity.
+Qed.
+
+(* extraction of any listed member, in terms of what was listed *)
+Theorem extract_listed f t :
+  has_data (t_type t) = true -> 0 <= t_size t -> t_data t + t_size t <= blen f ->
+  extract f t = Done (Some (t_data t, t_size t)) /\
+  plan_bytes f (t_data t, t_size t) = slice f (t_data t) (t_size t).
+Proof. intros H1 H2 H3. split; [now apply extract_ok|reflexivity]. Qed.
+
+(* non-vacuity for records: a long name on a visor file whose data is stored away, and a long link *)
+Definition ex_longname : list Z := repeat 110 120 ++ [47; 120].
+Definition ex_record : amember :=
+  mkam true [46; 47; 46; 47; 64; 76; 111; 110; 103; 76; 105; 110; 107] [] 76 123 [] 420 0 0 0 0 0 (visor7 ++ [0]) [] [] 0 0 0 0
+       (ex_longname ++ repeat 0 (512 - 122)).
+Definition ex_items : list item := [IMember ex_dir; ILong ex_record (IMember ex_file2); IMember ex_std; IMember ex_file1].
+Definition ex_items_rest : list Z := repeat 0 512 ++ repeat 7 2000.
+
+Lemma ex_items_wf : wf_itemsb ex_items = true.
+Proof. vm_compute. reflexivity. Qed.
+Lemma ex_items_stops : stops ex_items ex_items_rest.
+Proof. exists EEof. split; [vm_compute; reflexivity|discriminate]. Qed.
+Lemma ex_items_names :
+  match members true (render_items ex_items ++ ex_items_rest) with
+  | Done ms => map (fun t => (length (t_name t), t_off t, t_data t)) ms
+  | _ => []
+  end = [(1%nat, 0, 512); (122%nat, 512, 2055); (1%nat, 2048, 2560); (3%nat, 3072, 2048)].
+Proof. vm_compute. reflexivity. Qed.
+
+Lemma header_roundtrip m : wf_hdrb m = true ->
+  frombuf true (header m) =
+  HOk (mkhdr (spec_name m) (a_link m) (a_size m) (spec_type m) (a_visor m)
+             (if a_visor m then a_voff m else 0) (if a_visor m then a_text m else 0)
+             (if a_visor m then a_fix m else 0)).
+Proof.
+  intros H. rewrite (frombuf_header m (wf_hdrb_WFh m H)).
+  unfold vhdr_of, hdr_of. destruct (a_visor m); reflexivity.
+Qed.
